@@ -308,8 +308,12 @@ class VolumeSubdivision(Logger):
         pcenter = sum([Vec(self.mesh.vertices[a]) for a in f ])/3 # barycenter
         self.mesh.vertices.append(pcenter)
         
-        for c in self.conn.face_to_cells(face_id):
-            iF = self.conn.in_cell_face_index(c,face_id)
+        face_set = set(f)
+        # cells adjacent to the face are read from the cells as they are now: the connectivity computed when 
+        # entering the block does not know about the cells and faces created by previous operations
+        for c in [_c for _c in self.mesh.id_cells if face_set.issubset(self.mesh.cells[_c])]:
+            if len(self.mesh.cells[c]) != 4 : continue
+            iF = [_i for _i,_x in enumerate(self.mesh.cells[c]) if _x not in face_set][0]
             new_cells = []
             for i in range(4):
                 if i==iF : continue # opposite point in tet from face
